@@ -47,6 +47,112 @@ def exceptions_enabled(facts, cls, member="m_out"):
     return False
 
 
+def gather_outcomes(f, enums):
+    """A function that hands two buffers (head, head_size, body, body_size) to writev: for every count the system call can
+    return, what the function does - throws, or returns after having passed on exactly the bytes that are still missing.
+    -> [(count, outcome text, ok)] or raises minieval.Unknown"""
+    from .. import minieval
+    sizes = [p_ for p_ in f.get("params", []) if (p_.get("t") or "").replace("const ", "") in ("unsigned long", "std::size_t", "size_t")]
+    raw = [c for c in ir.calls_in(f["body"]) if c.get("k") == "Call" and callee_name(c) == "writev"]
+    if len(raw) != 1 or len(sizes) != 2:
+        raise minieval.Unknown("not a two-buffer gathering write")
+    H, B = 5, 7
+    retkey = None
+    for d in ir.walk(f["body"]):
+        if d.get("k") == "Decl":
+            for v in d.get("vars", []):
+                if v.get("init") is not None and any(x is raw[0] for x in ir.walk(v["init"])):
+                    retkey = "l:%s#%s" % (v["n"], v["id"])
+    if retkey is None:
+        raise minieval.Unknown("the result of writev is not kept")
+    out = []
+
+    class Leave(Exception):
+        pass
+
+    for cnt in (-1, 0, 1, H - 1, H, H + 1, H + B - 1, H + B):
+        env = {"p:%s" % sizes[0]["n"]: H, "p:%s" % sizes[1]["n"]: B}
+        passed = []
+
+        def walk_(sts):
+            for s_ in sts:
+                u = unwrap(s_)
+                if not isinstance(u, dict):
+                    continue
+                k = u.get("k")
+                if k == "Block":
+                    walk_(u.get("s", []))
+                elif k == "If":
+                    br = u.get("then") if minieval.ev(unwrap(u["cond"]), env, enums) else u.get("else")
+                    if br is not None:
+                        walk_(ir.stmts(br))
+                elif k == "Throw":
+                    raise Leave("throw")
+                elif k == "Return":
+                    raise Leave("return")
+                elif k == "Decl":
+                    for v in u.get("vars", []):
+                        key = "l:%s#%s" % (v.get("n"), v.get("id"))
+                        if key == retkey:
+                            env[key] = cnt
+                        elif v.get("init") is not None:
+                            try:
+                                env[key] = minieval.ev(unwrap(v["init"]), env, enums)
+                            except minieval.Unknown:
+                                pass
+                elif k == "MCall" and callee_name(u) == "write" and len(u.get("args", [])) == 2:
+                    passed.append(minieval.ev(unwrap(u["args"][1]), env, enums))
+                elif k in ("While", "For", "Do"):
+                    raise minieval.Unknown("a loop after the system call")
+                else:
+                    try:
+                        minieval.step(u, env, enums)
+                    except minieval.Unknown:
+                        pass
+        try:
+            walk_(ir.stmts(f["body"]))
+            how = "return"
+        except Leave as lv:
+            how = str(lv)
+        if how == "throw":
+            out.append((cnt, "throws", True))
+        else:
+            done = (cnt if cnt > 0 else 0) + sum(passed)
+            okc = cnt >= 0 and done == H + B
+            out.append((cnt, "returns normally after %d of %d bytes" % (done, H + B), okc))
+    return out
+
+
+def check_gather_counts(run, rule):
+    """R16.8: a gathering write (writev over the staged bytes and a string) reports or completes every short count - including the
+    count that ends exactly between the two buffers.  Tabulated over the counts -1, 0, 1, h-1, h, h+1, h+b-1, h+b for sample sizes."""
+    from .. import minieval
+    facts = run.facts
+    try:
+        bad = gather_outcomes(facts.control("r16_8_writer::gather_boundary_lost", rule), facts.enums)
+        good = gather_outcomes(facts.control("r16_8_writer::gather_complete", rule), facts.enums)
+    except minieval.Unknown as ex:
+        raise AnalysisBroken(rule, "positive control verif_rc::r16_8_writer cannot be tabulated (%s)" % ex)
+    if [c_ for c_, t_, ok_ in bad if not ok_] != [5] or any(not ok_ for c_, t_, ok_ in good):
+        raise AnalysisBroken(rule, "positive control verif_rc::r16_8_writer: expected exactly the boundary count reported, found %s / %s" % (bad, good))
+    n = 0
+    for f in sorted(facts.functions.values(), key=lambda x: x["key"]):
+        if f.get("body") is None or not any(c.get("k") == "Call" and callee_name(c) == "writev" for c in ir.calls_in(f["body"])):
+            continue
+        n += 1
+        key = "%s:every-count-handled" % short(f["qn"])
+        try:
+            outs = gather_outcomes(f, facts.enums)
+        except minieval.Unknown as ex:
+            run.ob(rule, key, None, f, f["line"], "the handling of writev's result cannot be tabulated (%s)" % ex)
+            continue
+        lost = [(c_, t_) for c_, t_, ok_ in outs if not ok_]
+        run.ob(rule, key, not lost, f, f["line"],
+               "every count writev can return is reported by an exception or completed by writing the missing bytes" if not lost else
+               "for head_size = 5, body_size = 7: when writev returns %d the function %s - bytes are lost and no exception reports it" % lost[0])
+    run.info["gathering_writes"] = n
+
+
 def check(run):
     # staged bytes leave the encoder only through flush_buffer's write: nothing else resets the cursor, so a rotation cannot
     # silently drop what was staged for the output it closes or opens (R06.4 imported)
@@ -85,6 +191,7 @@ def check(run):
                        "m_out.%s() on a std::ofstream without exception mask and without a test of the stream state afterwards: a full disk or "
                        "I/O error is recorded only in failbit/badbit and never reported (the API documents @throw std::ios_base::failure)" % callee_name(c))
     run.floor("R16.1", 4, "OS/stream write sites")
+    check_gather_counts(run, "R16.8")
 
     # ---------------- R16.2 no swallowing handler on the rotate path
     rots = facts.fns(EXP + "::rotate_output")
